@@ -11,6 +11,10 @@ pp.create_mdg "cartesian" / "tensor_grid"), the whole md-grid is exported (per s
 tags, geometry; per interface: the (mortar cell, primary face) and (mortar cell, secondary cell) entries of
 primary_to_mortar_int / secondary_to_mortar_int, the side of every mortar cell) and TLC compares it with the expected
 structure and evaluates the clauses exactly (tolerance 0).
+Scaled family: lattice networks (0-2 fractures) on Cartesian grids whose physical dimensions differ from the number of
+cells - cart_grid(.., physdims=L) and create_mdg("cartesian", cell sizes), with n in {3, 5, 6, 7} cells on extents 1, 2, 3
+(cell sizes that are not representable) and with target cell sizes that do not divide the extent; the fracture vertices
+are the doubles k * (L / n); all clauses, the expected structure compared through scaled lattice coordinates.
 Tensor family: a seeded sample of the lattice networks on non-uniform tensor grids (pp.meshing.tensor_grid), validity
 clauses only.  Simplex family (validation): a catalogue of integer-vertex networks (non axis-aligned, X / T / L, touching the boundary)
 meshed by gmsh through pp.create_mdg("simplex", ..) at several mesh sizes; only the validity clauses, float-judged.
@@ -56,7 +60,7 @@ def partially_overlapping_intersection_segments(rec):
     i = rec["in"]
     if i["dim"] != 3 or not rec["observed"]["err"].startswith("AssertionError"):
         return False
-    es = [_unit_edges(v) for v in i["fracs"]]
+    es = [_unit_edges(v) for v in i.get("fracs", [])]
     if any(e is None for e in es):
         return False
     segs = [a & b for a, b in itertools.combinations(es, 2) if a & b]
@@ -174,10 +178,18 @@ def corners(lo, hi):
     return out
 
 
+def _prod(v):
+    out = 1
+    for x in v:
+        out *= x
+    return out
+
+
 def lattice_input(rec, path="cart_grid"):
     fr = [[list(f[0]), list(f[1])] for f in rec["fracs"]]
     return dict(family="lattice", dim=rec["dim"], box=list(rec["box"]), fracs=[corners(f[0], f[1]) for f in fr],
-                lat=dict(dim=rec["dim"], box=list(rec["box"]), fracs=fr), path=path, args=dict(none=0))
+                lat=dict(dim=rec["dim"], box=list(rec["box"]), fracs=fr), path=path, args=dict(none=0),
+                vol=[_prod(rec["box"][:rec["dim"]]), 1])
 
 
 AXMAP = [0, 1, 3, 4]   # lattice index -> node coordinate of the non-uniform tensor grids
@@ -188,7 +200,53 @@ def tensor_input(rec):
     clauses only (family 'tensor')"""
     mp = lambda p: [AXMAP[p[0]], AXMAP[p[1]], AXMAP[p[2]]]  # noqa: E731
     return dict(family="tensor", dim=rec["dim"], box=[AXMAP[b] for b in rec["box"]], lbox=list(rec["box"]),
+                vol=[_prod([AXMAP[b] for b in rec["box"][:rec["dim"]]]), 1],
                 fracs=[[mp(v) for v in corners(f[0], f[1])] for f in rec["fracs"]], path="tensor_grid", args=dict(none=0))
+
+
+def scaled_input(dim, n, L, fracs, path, cs=None):
+    """the lattice network `fracs` (index coordinates, n[i] cells per direction) on the Cartesian grid of the domain
+    [0, L[i]] (L: Fractions); cs: target cell sizes (Fractions) handed to create_mdg, None = L / n"""
+    from fractions import Fraction
+
+    n = list(n) + [0] * (3 - len(n))
+    L = [Fraction(x) for x in L] + [Fraction(0)] * (3 - len(L))
+    if path == "create_mdg_cellsize" and cs is None:
+        cs = [L[i] / n[i] for i in range(dim)]
+    cs = [Fraction(x) for x in (cs or [])] + [Fraction(0)] * (3 - len(cs or []))
+    vol = _prod([L[i] for i in range(dim)])
+    return dict(family="scaled", dim=dim, box=n, lat=dict(dim=dim, box=n, fracs=[[list(f[0]), list(f[1])] for f in fracs]),
+                scale=[[n[i], L[i].numerator, L[i].denominator] if n[i] else [0, 0, 1] for i in range(3)],
+                cs=[[c.numerator, c.denominator] for c in cs], vol=[vol.numerator, vol.denominator], path=path,
+                args=dict(none=0))
+
+
+def _scaled_fracs(inp):
+    """fracture vertices as a user writes them: k * (L / n) in floating point"""
+    d = inp["dim"]
+    h = [(s[1] / s[2]) / s[0] if s[0] else 0.0 for s in inp["scale"]]
+    out = []
+    for lo, hi in inp["lat"]["fracs"]:
+        v = np.array(corners(lo, hi), dtype=float).T
+        out.append((v * np.array(h).reshape((3, 1)))[:d, :])
+    return out
+
+
+def _mesh_scaled(inp):
+    import porepy as pp
+
+    d = inp["dim"]
+    Lf = [s[1] / s[2] for s in inp["scale"][:d]]
+    fr = _scaled_fracs(inp)
+    if inp["path"] == "cart_physdims":
+        return pp.meshing.cart_grid(fr, np.array(inp["box"][:d]), physdims=np.array(Lf))
+    bb = {"xmin": 0, "xmax": Lf[0], "ymin": 0, "ymax": Lf[1]}
+    if d == 3:
+        bb.update(zmin=0, zmax=Lf[2])
+    net = pp.create_fracture_network([pp.LineFracture(a) if d == 2 else pp.PlaneFracture(a) for a in fr], pp.Domain(bb))
+    cs = [c[0] / c[1] for c in inp["cs"][:d]]
+    args = dict(cell_size=cs[0]) if len(set(cs)) == 1 else {"cell_size_" + k: c for k, c in zip("xyz", cs)}
+    return pp.create_mdg("cartesian", args, net)
 
 
 def _frac_arrays(inp):
@@ -211,6 +269,8 @@ def mesh(inp):
     import porepy as pp
 
     path, d = inp["path"], inp["dim"]
+    if inp["family"] == "scaled":
+        return _mesh_scaled(inp)
     if path == "cart_grid":
         return pp.meshing.cart_grid(_frac_arrays(inp), np.array(inp["box"][:d]))
     if path == "tensor_grid":
@@ -258,7 +318,7 @@ def execute_all(inputs, procs=POOL):
     # porepy's numba kernels are compiled at first use: do that once, before the worker processes are forked
     seen = set()
     for i in inputs:
-        k = (i["dim"], i["path"], min(len(i["fracs"]), 2))
+        k = (i["dim"], i["path"], min(len(i.get("lat", i)["fracs"]), 2))
         if k not in seen:
             seen.add(k)
             execute(i)
@@ -306,6 +366,7 @@ def simplex_inputs(ctx):
         d, box, fr = cat[name]
         for h in hs:
             out.append(dict(family="simplex", dim=d, box=box, fracs=fr, path="create_mdg_simplex", name=name,
+                            vol=[_prod(box[:d]), 1],
                             args=dict(h100=h, hf100=h, hb100=max(h, 100))))
     return out
 
@@ -343,17 +404,49 @@ def summary(o):
 
 def boxes(ctx):
     """(configurations enumerated and executed exhaustively, thinned configurations): <<dim, box, max #fractures,
-    ordered sequences?, thinning of the 2nd, of the 3rd fracture>>"""
+    ordered sequences?, thinning of the 1st, 2nd, 3rd fracture, tag>>"""
     if ctx.quick:
-        return [(2, (3, 3, 0), 2, True, 1, 1), (2, (3, 2, 0), 3, False, 1, 1), (3, (2, 2, 2), 2, False, 1, 1)], []
-    return ([(2, (4, 4, 0), 2, True, 1, 1), (2, (3, 3, 0), 3, False, 1, 1), (2, (3, 2, 0), 3, True, 1, 1),
-             (3, (2, 2, 2), 3, False, 1, 1), (3, (3, 2, 2), 2, False, 1, 1)],
-            [(2, (4, 4, 0), 3, True, 1, 150), (2, (4, 3, 0), 3, True, 1, 60), (3, (3, 3, 3), 3, True, 160, 150),
-             (3, (3, 3, 2), 3, True, 60, 80)])
+        return [(2, (3, 3, 0), 2, True, 1, 1, 1, "lat"), (2, (3, 2, 0), 3, False, 1, 1, 1, "lat"),
+                (3, (2, 2, 2), 2, False, 1, 1, 1, "lat")], []
+    return ([(2, (4, 4, 0), 2, True, 1, 1, 1, "lat"), (2, (3, 3, 0), 3, False, 1, 1, 1, "lat"),
+             (2, (3, 2, 0), 3, True, 1, 1, 1, "lat"), (3, (2, 2, 2), 3, False, 1, 1, 1, "lat"),
+             (3, (3, 2, 2), 2, False, 1, 1, 1, "lat")],
+            [(2, (4, 4, 0), 3, True, 1, 1, 150, "lat"), (2, (4, 3, 0), 3, True, 1, 1, 60, "lat"),
+             (3, (3, 3, 3), 3, True, 1, 160, 150, "lat"), (3, (3, 3, 2), 3, True, 1, 60, 80, "lat")])
+
+
+def scaled_plan(ctx):
+    """Cartesian grids whose physical dimensions differ from the number of cells.
+    (a) physdims family: n cells per direction from {3, 5, 6, 7} on the domains (1,1,1) and (2,1,3) (2D: (1,1), (2,1),
+        (1,3)): cell sizes that are not exactly representable; through cart_grid(.., physdims) and create_mdg("cartesian")
+    (b) target cell sizes that do NOT divide the extent (or exceed it): create_mdg("cartesian", cell_size..)
+    returns [(enumerator configuration, [(L, cs or None, path), ..])]; networks of 0-2 fractures, thinned"""
+    from fractions import Fraction as F
+
+    q = ctx.quick
+    t3a, t3b = (260, 1500) if q else (120, 1200)
+    phys3 = [((1, 1, 1), None, "cart_physdims"), ((2, 1, 3), None, "cart_physdims"),
+             ((1, 1, 1), None, "create_mdg_cellsize"), ((2, 1, 3), None, "create_mdg_cellsize")]
+    phys2 = [((1, 1), None, "cart_physdims"), ((2, 1), None, "create_mdg_cellsize"), ((1, 3), None, "cart_physdims")]
+    plan = [((3, (7, 5, 3), 2, False, t3a, t3b, 1, "sc"), phys3), ((3, (3, 7, 5), 2, False, t3a, t3b, 1, "sc"), phys3),
+            ((3, (5, 3, 7), 2, False, t3a, t3b, 1, "sc"), phys3), ((3, (6, 6, 2), 2, False, t3a // 2, t3b, 1, "sc"), phys3),
+            ((2, (7, 5, 0), 2, False, 16 if q else 2, 150 if q else 20, 1, "sc"), phys2),
+            ((2, (6, 3, 0), 2, False, 12 if q else 2, 100 if q else 15, 1, "sc"), phys2)]
+    t2 = (4, 40) if q else (1, 6)
+    t3 = (16, 300) if q else (2, 30)
+    nd = "create_mdg_cellsize"
+    plan += [((2, (3, 3, 0), 2, False, t2[0], t2[1], 1, "sc"), [((1, 1), (F(3, 10), F(3, 10)), nd), ((1, 1), (F(7, 20), F(3, 10)), nd)]),
+             ((2, (5, 2, 0), 2, False, t2[0], t2[1], 1, "sc"), [((2, 1), (F(2, 5), F(9, 20)), nd)]),
+             ((2, (4, 3, 0), 2, False, t2[0], t2[1], 1, "sc"), [((3, 2), (F(7, 10), F(7, 10)), nd)]),
+             ((2, (2, 1, 0), 2, False, 1, 1, 1, "sc"), [((1, F(2, 5)), (F(9, 20), F(9, 20)), nd)]),
+             ((3, (4, 4, 1), 2, False, t3[0], t3[1], 1, "sc"), [((2, 2, F(2, 5)), (F(1, 2),) * 3, nd)]),
+             ((3, (3, 3, 3), 2, False, t3[0], t3[1], 1, "sc"), [((1, 1, 1), (F(3, 10),) * 3, nd)]),
+             ((3, (4, 2, 2), 2, False, t3[0], t3[1], 1, "sc"), [((2, 1, 1), (F(9, 20),) * 3, nd), ((2, 1, 1), (F(1, 2), F(9, 20), F(3, 5)), nd)])]
+    return plan
 
 
 def netkey(r):
-    return (r["dim"], tuple(r["box"]), tuple(tuple(map(tuple, f)) for f in r["fracs"]))
+    return (r["tag"], r["dim"], tuple(r["box"]), tuple(tuple(map(tuple, f)) for f in r["fracs"]))
 
 
 def enumerate_networks(ctx, cfgs, tag):
@@ -374,7 +467,9 @@ def run(ctx):
                 "intersection; keys = (family, dim, box, #fractures, #X, #T, #L intersections, #0-d points in 3D, "
                 "touches boundary, call path)")
     full, thinned = boxes(ctx)
-    allrecs = enumerate_networks(ctx, full + thinned, "enum")
+    splan = scaled_plan(ctx)
+    everything = enumerate_networks(ctx, full + thinned + [c for c, _ in splan], "enum")
+    allrecs = [r for r in everything if r["tag"] == "lat"]
     fullmax = {(b[0], tuple(b[1])): b[2] for b in full}
     is_full = lambda r: len(r["fracs"]) <= fullmax.get((r["dim"], tuple(r["box"])), 0)  # noqa: E731
     recs_full = [r for r in allrecs if is_full(r)]
@@ -394,14 +489,23 @@ def run(ctx):
     for r in ctx.rng.sample(small, min(len(small), 40 if ctx.quick else 400)):
         inputs.append(tensor_input(r))
         stats.append(r["stats"])
+    # scaled Cartesian grids (physical dimensions # number of cells; non-dividing target cell sizes), 0-2 fractures
+    zero = dict(nf=0, n2=0, n3=0, x=0, t=0, l=0, bnd=False, pairs=0)
+    for cfg, variants in splan:
+        nets = [r for r in everything if r["tag"] == "sc" and (r["dim"], tuple(r["box"])) == (cfg[0], cfg[1])]
+        nets = [dict(fracs=[], stats=zero)] + nets
+        for j, r in enumerate(nets):
+            for L, cs, path in ([variants[j % len(variants)]] if ctx.quick else variants):
+                inputs.append(scaled_input(cfg[0], cfg[1][:cfg[0]], L, r["fracs"], path, cs))
+                stats.append(dict(r["stats"], bnd=(tuple(map(str, L)), path, cs is not None)))
     cases = execute_all(inputs)
     sim = simplex_inputs(ctx)
     sim_cases = [execute(i) for i in sim]
     judge_cases(ctx, cases + sim_cases, "judge")
     for c, s in zip(cases, stats):
         i = c["in"]
-        ctx.case(key=(i["family"], i["dim"], tuple(i["box"]), s["nf"], s["x"], s["t"], s["l"], s["n3"], s["bnd"], i["path"]),
-                 nontrivial=s["n2"] > 0)
+        ctx.case(key=(i["family"], i["dim"], tuple(i["box"]), s["nf"], s["x"], s["t"], s["l"], s["n3"], str(s["bnd"]), i["path"]),
+                 nontrivial=s["n2"] > 0 or (i["family"] == "scaled" and s["nf"] > 0))
     for c in sim_cases:
         i = c["in"]
         ctx.case(key=("simplex", i["name"], i["args"]["h100"]), nontrivial=len(c["out"]["intfs"]) > len(i["fracs"]))
@@ -414,6 +518,10 @@ def run(ctx):
     ctx.assumptions += [
         "lattice family: fractures are axis-aligned, inside the box, not inside the domain boundary, pairwise without a "
         "common cell (overlapping / duplicated fractures make cart_grid raise and are outside the family); all clauses exact",
+        "scaled family (Cartesian grids with physical dimensions / target cell sizes, incl. sizes that do not divide the "
+        "extent): fracture vertices are handed to porepy as the doubles k * (L / n); all clauses float-judged; the expected "
+        "structure is compared through the scaled lattice coordinates 2 n x / L; the number of cells for a target cell "
+        "size is the documented round(extent / cell size), at least 1",
         "tensor family (lattice networks on non-uniform tensor grids, integer node coordinates) and simplex family: "
         "validity clauses only (the expected structure of FracMesh PART 1 is not compared)",
         "simplex family (validation, not exhaustive): FacesCoincideWithCell, OppositeNormals, HostVolume, CellsOnFracture "
